@@ -194,6 +194,13 @@ def generate(repo):
                     if nm not in tr.env:
                         raise Untranslatable(f'{nm} clamped before it is assigned')
                     lets.append(f'let {nm}_ := if {tr.cond(st.test)} then {tr.expr(st.body[0].value)} else {nm}_')
+                elif isinstance(st, ast.Assign) and len(st.targets) == 1 and isinstance(st.targets[0], ast.Name):
+                    # a local alias (`ncols = x.shape[1]`): inlined where it is used; the clamp itself is emitted AS WRITTEN
+                    # (`min(max(v, 0), n)` or the two ifs) and proved equal to the model clamp for all integers in gen_window
+                    try:
+                        tr.env[st.targets[0].id] = tr.expr(st.value)
+                    except Untranslatable:
+                        pass
             for nm, res in ((f'windowLo{ax}', f'offset_{ax.lower()}_'), (f'windowHi{ax}', f'upper_{ax.lower()}_')):
                 out.append(lean_def(nm, '(c ic s n : Int)', 'Int', lets, res))
         # every other statement of the body must be the int -> tuple promotion of samples_per_seg
@@ -263,13 +270,69 @@ def generate(repo):
                    'return segment_vtov, all_centers, windows, local_coords, local_masks, segment_ids, mask') else None
     g.fact('hexMaskIsUnionOfLocalMasks', 'prysm/segmented.py:_composite_hexagonal_aperture', aperture_structure)
 
+    def claim_step():
+        """the tail of the per-segment loop, per sample: what is stored as the segment's local mask and what the aperture mask
+        becomes, as Boolean functions of (aperture mask so far, polygon mask of this segment)"""
+        fn = get_def(sg, '_composite_hexagonal_aperture')
+        ring_loop = [s_ for s_ in fn.body if isinstance(s_, ast.For)][0]
+        seg_loop = [s_ for s_ in ring_loop.body if isinstance(s_, ast.For)][0]
+        body = list(seg_loop.body)
+        k0 = [i for i, s_ in enumerate(body) if isinstance(s_, ast.Assign) and ast.unparse(s_.targets[0]) == 'local_mask'
+              and 'regular_polygon' in ast.unparse(s_.value)][0]
+        st8 = {'local_mask': 'm', 'mask[local_window]': 'prev'}
+        stored = None
+
+        def b(e):
+            key = ast.unparse(e)
+            if key in st8:
+                return st8[key]
+            if isinstance(e, ast.UnaryOp) and isinstance(e.op, ast.Invert):
+                return f'(!{b(e.operand)})'
+            if isinstance(e, ast.BinOp) and isinstance(e.op, (ast.BitAnd, ast.BitOr, ast.BitXor)):
+                sym = {ast.BitAnd: '&&', ast.BitOr: '||', ast.BitXor: '!='}[type(e.op)]
+                return f'({b(e.left)} {sym} {b(e.right)})'
+            if isinstance(e, ast.Call) and ast.unparse(e.func) in ('np.logical_not',) and len(e.args) == 1:
+                return f'(!{b(e.args[0])})'
+            raise Untranslatable(f'mask expression {key}')
+        for st in body[k0 + 1:]:
+            txt = ast.unparse(st)
+            if isinstance(st, ast.AugAssign) and ast.unparse(st.target) in st8 and isinstance(st.op, (ast.BitAnd, ast.BitOr)):
+                sym = '&&' if isinstance(st.op, ast.BitAnd) else '||'
+                st8[ast.unparse(st.target)] = f'({st8[ast.unparse(st.target)]} {sym} {b(st.value)})'
+            elif isinstance(st, ast.Assign) and ast.unparse(st.targets[0]) in st8:
+                st8[ast.unparse(st.targets[0])] = b(st.value)
+            elif isinstance(st, ast.Expr) and txt.startswith('local_masks.append('):
+                stored = b(st.value.args[0])
+            elif 'local_mask' in txt.replace('local_masks', '') or 'mask[' in txt:
+                raise Untranslatable(f'claim step: {txt}')
+        if stored is None:
+            raise Untranslatable('local mask never stored')
+        return f"def claimStep (prev m : Bool) : Bool × Bool := ({stored}, {st8['mask[local_window]']})"
+    g.item('hex_claim', 'prysm/segmented.py:_composite_hexagonal_aperture (local_mask / mask update)',
+           lambda: get_def(sg, '_composite_hexagonal_aperture'), claim_step,
+           f'def claimStep (prev m : Bool) : Bool × Bool := {M}.claimStep prev m')
+
     def compose_structure():
         ok = True
         for cls in ('CompositeHexagonalAperture', 'CompositeKeystoneAperture'):
             fn = get_def(sg, f'{cls}.compose_opd')
-            loop = [s for s in fn.body if isinstance(s, ast.For)][0]
+            loops = [s for s in fn.body if isinstance(s, ast.For)]
+            returns_out = has(ast.unparse(fn), 'return out')
+            if not loops:
+                # the accumulation loop extracted into a module-level helper `return helper(out, windows, masks, bases, coefs)`:
+                # bind the helper's parameters to the call's arguments and read the loop there
+                ret = [s for s in fn.body if isinstance(s, ast.Return) and isinstance(s.value, ast.Call) and isinstance(s.value.func, ast.Name)][-1]
+                helper = get_def(sg, ret.value.func.id)
+                params = [a.arg for a in helper.args.args]
+                mapping = dict(zip(params, ret.value.args))
+                mapping.update({k.arg: k.value for k in ret.value.keywords})
+                hb = [subst(s, mapping) for s in _body(helper)]
+                loops = [s for s in hb if isinstance(s, ast.For)]
+                returns_out = isinstance(hb[-1], ast.Return) and ast.unparse(hb[-1].value) == 'out' and ast.unparse(mapping['out']) == 'out' \
+                    and all(isinstance(s, (ast.For, ast.Return)) for s in hb)
+            loop = loops[0]
             ok = ok and [ast.unparse(s) for s in loop.body] == ['tile = sum_of_2d_modes(base, c)', 'tile *= mask', 'out[win] += tile']
-            ok = ok and has(ast.unparse(fn), 'if out is None:\n    out = np.zeros_like(self.x)', 'return out')
+            ok = ok and has(ast.unparse(fn), 'if out is None:\n    out = np.zeros_like(self.x)') and returns_out
             it = ast.unparse(loop.iter)
             ok = ok and (has(it, 'zip(self.windows, self.local_masks, self.opd_bases, coefs)')
                          or has(it, 'zip(self.segment_windows, self.segment_masks, self.opd_bases[1:], segment_coefs)'))
@@ -340,7 +403,7 @@ def generate(repo):
                    'outer_radius = center_radius', 'arc_per_seg = 360 / nsegments',
                    'segment_angles = np.arange(nsegments, dtype=float) * arc_per_seg + rotation',
                    'inner_include = circle(inner_radius, rr)', 'outer_exclude = circle(outer_radius, rr)',
-                   'mask = arc & ang_mask', 'primary_mask[window] |= mask', 'hi = angle + arc_rad', 'lo = angle',
+                   'mask = arc & ang_mask', 'primary_mask[window] |= mask', 'lo = angle',
                    'primary_mask &= ~all_spiders')
         loop = [s_ for s_ in fn.body if isinstance(s_, ast.For)][0]
         rad = [s_ for s_ in loop.body if isinstance(s_, ast.Assign) and ast.unparse(s_.targets[0]) in ('inner_radius', 'outer_radius')]
@@ -358,14 +421,149 @@ def generate(repo):
         ang = [s_ for s_ in inner_loop.body if isinstance(s_, ast.Assign) and ast.unparse(s_.targets[0]) == 'ang_mask'][0].value
         trp = VTr({'tt': ('t', 's'), 'lo': ('lo', 's'), 'hi': ('hi', 's')})
         angp = prop(trp, ang)
+        # the wrap-around branches that follow `ang_mask = ...`:  if c1: ang_mask |= X  elif c2: <assignments>; ang_mask = Y
+        # (constants hoisted to the top of the function -- two_pi = 2*np.pi -- are inlined first)
+        consts = {}
+        for st in fn.body:
+            if isinstance(st, ast.Assign) and len(st.targets) == 1 and isinstance(st.targets[0], ast.Name):
+                v = subst(st.value, consts)
+                if all(isinstance(n_, (ast.Constant, ast.BinOp, ast.UnaryOp, ast.operator, ast.unaryop, ast.Load, ast.Attribute, ast.Name))
+                       and (not isinstance(n_, ast.Name) or n_.id in ('np', 'math')) and (not isinstance(n_, ast.Attribute) or n_.attr == 'pi')
+                       for n_ in ast.walk(v)):
+                    consts[st.targets[0].id] = v
+        body = [subst(s_, consts) for s_ in inner_loop.body]
+        k_ang = [i for i, s_ in enumerate(body) if isinstance(s_, ast.Assign) and ast.unparse(s_.targets[0]) == 'ang_mask'][0]
+        k_msk = [i for i, s_ in enumerate(body) if isinstance(s_, ast.Assign) and ast.unparse(s_.targets[0]) == 'mask'][0]
+        between = body[k_ang + 1:k_msk]
+        trw = VTr({'tt': ('t', 's'), 'lo': ('lo', 's'), 'hi': ('hi', 's'), 'np.pi': ('pi', 's'), 'math.pi': ('pi', 's')})
+
+        def branch(stmts):
+            """ang_mask after a straight-line branch body, as a Prop in (lo, hi, t, pi)"""
+            names, cur = {}, None
+            for st in stmts:
+                if isinstance(st, ast.AugAssign) and ast.unparse(st.target) == 'ang_mask' and isinstance(st.op, (ast.BitOr, ast.BitAnd)):
+                    sym = '∨' if isinstance(st.op, ast.BitOr) else '∧'
+                    cur = f'({cur or angp} {sym} {prop(trw, subst(st.value, names))})'
+                elif isinstance(st, ast.Assign) and ast.unparse(st.targets[0]) == 'ang_mask':
+                    cur = prop(trw, subst(st.value, names))
+                elif isinstance(st, ast.Assign) and isinstance(st.targets[0], ast.Name):
+                    names[st.targets[0].id] = subst(st.value, names)
+                elif isinstance(st, ast.Assign) and ast.unparse(st.targets[0]) in ('lo, hi', '(lo, hi)'):
+                    pass      # rebinding AFTER the mask is formed: only feeds the edge coordinates stored for the OPD bases
+                else:
+                    raise Untranslatable(f'keystone wrap branch: {ast.unparse(st)}')
+                if cur is None and isinstance(st, ast.Assign) and ast.unparse(st.targets[0]) in ('lo, hi', '(lo, hi)'):
+                    raise Untranslatable('lo, hi rebound before the angular mask of the branch')
+            return cur or angp
+
+        def chain(stmts):
+            if not stmts:
+                return angp
+            if len(stmts) != 1 or not isinstance(stmts[0], ast.If):
+                raise Untranslatable('keystone wrap: expected one if/elif chain between ang_mask and mask')
+            node = stmts[0]
+            c = prop(trw, node.test)
+            return f'(({c} ∧ {branch(node.body)}) ∨ (¬ {c} ∧ {chain(node.orelse)}))'
+        wrap = chain(between)
+        # where the arc starts: `lo = angle`, whole turns taken off / added by while loops, then `hi = lo + arc_rad`
+        pre = body[:k_ang]
+        down = up = None
+        hi_expr, hi_touched, lo_seen = None, False, False
+        trl = VTr({'lo': ('lo', 's'), 'np.pi': ('pi', 's'), 'math.pi': ('pi', 's'), 'angle': ('angle', 's'), 'arc_rad': ('arc', 's')})
+        for st in pre:
+            txt = ast.unparse(st)
+            if isinstance(st, ast.Assign) and txt == 'lo = angle':
+                lo_seen = True
+            elif isinstance(st, ast.While) and lo_seen and 'lo' in {n_.id for n_ in ast.walk(st.test) if isinstance(n_, ast.Name)} \
+                    and 'hi' not in {n_.id for n_ in ast.walk(st) if isinstance(n_, ast.Name)}:
+                if len(st.body) != 1 or not isinstance(st.body[0], (ast.Assign, ast.AugAssign)):
+                    raise Untranslatable(f'keystone start loop: {txt}')
+                b0 = st.body[0]
+                val = b0.value if isinstance(b0, ast.Assign) else ast.BinOp(left=ast.Name(id='lo', ctx=ast.Load()), op=b0.op, right=b0.value)
+                tgt = ast.unparse(b0.targets[0] if isinstance(b0, ast.Assign) else b0.target)
+                if tgt != 'lo':
+                    raise Untranslatable(f'keystone start loop: {txt}')
+                if hi_expr is not None:
+                    hi_touched = True     # lo moves after hi was formed
+                    continue
+                pair = (prop(trl, st.test), trl.expr(ast.fix_missing_locations(val))[0])
+                if isinstance(val, ast.BinOp) and isinstance(val.op, ast.Sub) and down is None:
+                    down = pair
+                elif isinstance(val, ast.BinOp) and isinstance(val.op, ast.Add) and up is None:
+                    up = pair
+                else:
+                    raise Untranslatable(f'keystone start loop: {txt}')
+            elif isinstance(st, ast.Assign) and ast.unparse(st.targets[0]) == 'hi' and hi_expr is None:
+                hi_expr = trl.expr(st.value)[0]
+            elif lo_seen and {n_.id for n_ in ast.walk(st) if isinstance(n_, ast.Name) and isinstance(n_.ctx, ast.Store)} & {'lo', 'hi'}:
+                hi_touched = True        # a loop, a swap or a reassignment that moves hi away from lo + arc
+        if hi_expr is None or not lo_seen:
+            raise Untranslatable('keystone: lo / hi assignments not found')
+        down = down or ('False', 'lo')
+        up = up or ('False', 'lo')
+        KV = '{K : Type} [Add K] [Sub K] [Mul K] [Div K] [Neg K] [OfNat K 0] [OfNat K 1] [OfNat K 2]'
+        start = (f'def keyLoDownCond {PVARS} (pi lo : K) : Prop := {down[0]}\n'
+                 f'def keyLoDownStep {KV} (pi lo : K) : K := {down[1]}\n'
+                 f'def keyLoUpCond {PVARS} (pi lo : K) : Prop := {up[0]}\n'
+                 f'def keyLoUpStep {KV} (pi lo : K) : K := {up[1]}\n'
+                 f'def keyHi {KV} (angle lo arc : K) : K := {hi_expr}\n'
+                 f'def keyHiUntouched : Bool := {"false" if hi_touched else "true"}')
+        # the start angle of keystone k of a ring and the arc, from the statements of the ring loop in front of the segment loop:
+        # arc_per_seg = 360 / nsegments; arc_rad = np.radians(arc_per_seg); [rotation = arc_per_seg if None];
+        # segment_angles = np.arange(nsegments) * arc_per_seg + rotation; segment_angles = np.radians(segment_angles) - np.pi
+        rad_f = {nm: (lambda a, kw: (f'(rad {a[0][0]})', 's')) for nm in ('np.radians', 'np.deg2rad', 'truenp.radians', 'math.radians')}
+        tra = VTr({'nsegments': ('nseg', 's'), 'rotation': ('rot', 's'), 'np.pi': ('pi', 's'), 'math.pi': ('pi', 's')}, funcs=rad_f)
+        tra.env['deg360__'] = ('(360 : K)', 's')
+
+        class _C360(ast.NodeTransformer):
+            def visit_Constant(self, node):
+                return ast.copy_location(ast.Name(id='deg360__', ctx=ast.Load()), node) if node.value == 360 and not isinstance(node.value, bool) else node
+        default_rot = None
+        k_inner = [i for i, s_ in enumerate(loop.body) if s_ is inner_loop][0]
+        if ast.unparse(inner_loop.iter) != 'segment_angles' or ast.unparse(inner_loop.target) != 'angle':
+            raise Untranslatable('keystone: segment loop does not run over segment_angles')
+        for st in [ast.fix_missing_locations(_C360().visit(subst(s_, consts))) for s_ in loop.body[:k_inner]]:
+            txt = ast.unparse(st)
+            if isinstance(st, ast.If) and _n(ast.unparse(st.test)) == _n('rotation is None') and len(st.body) == 1 and not st.orelse \
+                    and isinstance(st.body[0], ast.Assign) and ast.unparse(st.body[0].targets[0]) == 'rotation':
+                default_rot = VTr(dict(tra.env), funcs=rad_f).expr(st.body[0].value)[0]
+            elif isinstance(st, ast.Assign) and len(st.targets) == 1 and isinstance(st.targets[0], ast.Name):
+                nm = st.targets[0].id
+                if nm in ('inner_radius', 'outer_radius'):
+                    continue
+                val = st.value
+                # np.arange(nsegments, dtype=float) is the index k of the keystone, per element
+                val = ast.parse(ast.unparse(val).replace('np.arange(nsegments, dtype=float)', 'k__').replace('np.arange(nsegments)', 'k__'), mode='eval').body
+                tra.env['k__'] = ('k', 's')
+                tra.env[nm] = tra.expr(val)
+            else:
+                raise Untranslatable(f'keystone ring loop: {txt[:60]}')
+        if default_rot is None or 'segment_angles' not in tra.env or 'arc_rad' not in tra.env:
+            raise Untranslatable('keystone: start angles / arc / default rotation not found')
+        KV2 = '{K : Type} [Add K] [Sub K] [Mul K] [Div K] [Neg K] [OfNat K 0] [OfNat K 1] [OfNat K 2]'
+        lit360 = lambda t: t      # noqa: E731
+        angles = (f'def keyAngle {KV2} [OfNat K 360] (rad : K → K) (pi k nseg rot : K) : K := {tra.env["segment_angles"][0]}\n'
+                  f'def keyArc {KV2} [OfNat K 360] (rad : K → K) (nseg : K) : K := {tra.env["arc_rad"][0]}\n'
+                  f'def keyDefaultRot {KV2} [OfNat K 360] (nseg : K) : K := {default_rot}')
         return (f'def keyInner {{K : Type}} [Add K] (outerPrev gap : K) : K := {inner}\n'
                 f'def keyOuter {{K : Type}} [Add K] (inner width : K) : K := {outer}\n'
-                f'def keySector {PVARS} (rin rout lo hi r t : K) : Prop := ({xor} ∧ {angp})')
+                f'def keySector {PVARS} (rin rout lo hi r t : K) : Prop := ({xor} ∧ {angp})\n'
+                f'def keyAng {PVARS} (pi lo hi t : K) : Prop := {wrap}\n' + start + '\n' + angles)
     g.item('keystone', 'prysm/segmented.py:_composite_keystone_aperture',
            lambda: get_def(sg, '_composite_keystone_aperture'), keystone,
            (f'def keyInner {{K : Type}} [Add K] (outerPrev gap : K) : K := {M}.keyInner outerPrev gap\n'
             f'def keyOuter {{K : Type}} [Add K] (inner width : K) : K := {M}.keyOuter inner width\n'
-            f'def keySector {PVARS} (rin rout lo hi r t : K) : Prop := {M}.keySector rin rout lo hi r t'))
+            f'def keySector {PVARS} (rin rout lo hi r t : K) : Prop := {M}.keySector rin rout lo hi r t\n'
+            f'def keyAng {PVARS} (pi lo hi t : K) : Prop := {M}.keyAng pi lo hi t\n'
+            f'def keyLoDownCond {PVARS} (pi lo : K) : Prop := lo > pi\n'
+            'def keyLoDownStep {K : Type} [Add K] [Sub K] [Mul K] [Div K] [Neg K] [OfNat K 0] [OfNat K 1] [OfNat K 2] (pi lo : K) : K := lo - 2 * pi\n'
+            f'def keyLoUpCond {PVARS} (pi lo : K) : Prop := lo < -pi\n'
+            'def keyLoUpStep {K : Type} [Add K] [Sub K] [Mul K] [Div K] [Neg K] [OfNat K 0] [OfNat K 1] [OfNat K 2] (pi lo : K) : K := lo + 2 * pi\n'
+            'def keyHi {K : Type} [Add K] [Sub K] [Mul K] [Div K] [Neg K] [OfNat K 0] [OfNat K 1] [OfNat K 2] (angle lo arc : K) : K := lo + arc\n'
+            'def keyHiUntouched : Bool := true\n'
+            'def keyAngle {K : Type} [Add K] [Sub K] [Mul K] [Div K] [Neg K] [OfNat K 0] [OfNat K 1] [OfNat K 2] [OfNat K 360] (rad : K → K) (pi k nseg rot : K) : K := Model.C18.keyAngle rad pi k nseg rot\n'
+            'def keyArc {K : Type} [Add K] [Sub K] [Mul K] [Div K] [Neg K] [OfNat K 0] [OfNat K 1] [OfNat K 2] [OfNat K 360] (rad : K → K) (nseg : K) : K := Model.C18.keyArc rad nseg\n'
+            'def keyDefaultRot {K : Type} [Add K] [Sub K] [Mul K] [Div K] [Neg K] [OfNat K 0] [OfNat K 1] [OfNat K 2] [OfNat K 360] (nseg : K) : K := Model.C18.keyDefaultRot nseg'))
 
     def rect_branches():
         fn = get_def(ge, 'rectangle')
